@@ -247,7 +247,7 @@ Definition leak_of_f (c : cfg) (st : astate) (nx : N) (fuse : option N) (o : op)
   | None => leak_of c st nx o
   | Some k =>
       match o with
-      | OClear _ v =>
+      | OClear _ v | ODropVec v =>
           match get_a v st with
           | Some a => if c_dg c && (k <? N.of_nat (length (a_xs a))) then skipn (S (N.to_nat k)) (a_xs a) else []
           | None => []
@@ -888,20 +888,34 @@ Theorem step_own_f st nx fuse o r D L :
 Proof.
   intros Hnx Hr Hinv. destruct fuse as [k|]; cbn [spec_step_f leak_of_f] in *.
   2:{ exact (step_own st nx o r D L Hnx Hr Hinv). }
-  destruct o; try discriminate.
-  - destruct k0; try discriminate. exact (take_drop_own_f st nx v TPop 0 k r D L (fun _ => eq_refl) Hnx Hr Hinv).
-  - destruct k0; try discriminate. exact (take_drop_own_f st nx v TRemove idx k r D L ltac:(discriminate) Hnx Hr Hinv).
-  - destruct k0; try discriminate. exact (take_drop_own_f st nx v TSwapRemove idx k r D L ltac:(discriminate) Hnx Hr Hinv).
-  - (* OClear *)
-    unfold sp_clear_f in Hr. destruct (get_a v st) as [av|] eqn:Hg; [|discriminate]. cbv zeta in Hr.
+  assert (Hclear : forall v r0, sp_clear_f c st nx v k = Some r0 -> forall st',
+            (forall x, cnt x (vis st') = cnt x (vis (set_a v None st))) ->
+            Permutation (created c (s_nx r0))
+              (vis st' ++ (D ++ drops (s_evs r0)) ++ (L ++ match get_a v st with
+                 | Some a => if c_dg c && (k <? N.of_nat (length (a_xs a))) then skipn (S (N.to_nat k)) (a_xs a) else []
+                 | None => [] end))).
+  { intros v r0 Hr0 st' Hst'.
+    unfold sp_clear_f in Hr0. destruct (get_a v st) as [av|] eqn:Hg; [|discriminate]. cbv zeta in Hr0.
     pose proof (vis_get_any st v) as Hv. rewrite Hg in Hv. cbn [slot_xs] in Hv.
-    pose proof (vis_set_any st v (Some (with_xs av []))) as H1. cbn [slot_xs with_xs a_xs app] in H1.
     assert (Hx : Permutation (a_xs av) (firstn (S (N.to_nat k)) (a_xs av) ++ skipn (S (N.to_nat k)) (a_xs av)))
       by (rewrite firstn_skipn; reflexivity).
     set (fk := firstn (S (N.to_nat k)) (a_xs av)) in *. set (tl := skipn (S (N.to_nat k)) (a_xs av)) in *.
     rewrite Hdg in *. cbn [andb] in *.
-    destruct (k <? N.of_nat (length (a_xs av))); injection Hr as <-; cbn [ok_res panic_res s_nx s_st s_evs]; rewrite drops_map;
-      perm_count.
+    destruct (k <? N.of_nat (length (a_xs av))); injection Hr0 as <-; cbn [ok_res panic_res s_nx s_st s_evs]; rewrite drops_map;
+      apply perm_cnt; intros x; specialize (Hst' x); count_at x; lia. }
+  destruct o; try discriminate.
+  - (* ODropVec *)
+    destruct (sp_clear_f c st nx v k) as [r0|] eqn:E0; [|discriminate]. injection Hr as <-. cbn [s_nx s_st s_evs].
+    apply (Hclear v r0 E0). intros x. reflexivity.
+  - destruct k0; try discriminate. exact (take_drop_own_f st nx v TPop 0 k r D L (fun _ => eq_refl) Hnx Hr Hinv).
+  - destruct k0; try discriminate. exact (take_drop_own_f st nx v TRemove idx k r D L ltac:(discriminate) Hnx Hr Hinv).
+  - destruct k0; try discriminate. exact (take_drop_own_f st nx v TSwapRemove idx k r D L ltac:(discriminate) Hnx Hr Hinv).
+  - (* OClear *)
+    pose proof (Hclear v r Hr (s_st r)) as H. apply H. intros x.
+    unfold sp_clear_f in Hr. destruct (get_a v st) as [av|]; [|discriminate]. cbv zeta in Hr.
+    pose proof (vis_set_any st v (Some (with_xs av []))) as H1. cbn [slot_xs with_xs a_xs app] in H1.
+    rewrite perm_cnt in H1. specialize (H1 x).
+    destruct (c_dg c && (k <? N.of_nat (length (a_xs av)))); injection Hr as <-; cbn [ok_res panic_res s_st]; exact H1.
 Qed.
 End StepOwn.
 
